@@ -15,7 +15,9 @@ Str(s)  == [t |-> "str", s |-> s]
 Arr(e)  == [t |-> "arr", e |-> e]
 Obj(m)  == [t |-> "obj", m |-> m]
 
-EmptyObj == Obj(<<>>)
+\* the empty object is the empty FUNCTION (TLC refuses to compare the empty tuple with a record)
+EmptyFcn == [x \in {} |-> x]
+EmptyObj == Obj(EmptyFcn)
 EmptyArr == Arr(<<>>)
 
 \* An explicit finite function from a set of <<key, value>> pairs.
